@@ -215,7 +215,7 @@ def run_unit(unit, tier="quick", dev=False, only=None):
         else:
             for (rel, mod, contract) in unit["appends"]:
                 filters += ["--harness", f"{mod}::"]
-        jobs = str(unit.get("jobs", 16))
+        jobs = str(os.environ.get("VPV_JOBS") or unit.get("jobs", 16))
         ht = unit.get("harness_timeout", 600)
         cmd = ["cargo", "kani", "-Z", "function-contracts", "-Z", "stubbing", "-Z", "unstable-options", "--harness-timeout", f"{ht}s"] + \
               unit.get("kani_args", []) + filters + ["-j", jobs, "--output-format", "terse"]
@@ -272,7 +272,7 @@ def run_unit(unit, tier="quick", dev=False, only=None):
         new = [o for o in refuted if any(k not in known for k in o.finding_keys)]
         if new and not unit.get("no_playback"):
             pf = []
-            for o in new[: unit.get("max_replays", 64)]:
+            for o in new[: unit.get("max_replays", 8)]:
                 pf += ["--harness", o.harness]
             cmd2 = ["cargo", "kani", "-Z", "function-contracts", "-Z", "stubbing", "-Z", "concrete-playback",
                     "--concrete-playback=print", "--exact"] + unit.get("kani_args", []) + pf + ["--output-format", "terse"]
@@ -292,6 +292,10 @@ def run_unit(unit, tier="quick", dev=False, only=None):
                     o.replay_reproduced = nr["result"].startswith("violated")
                     if not o.replay_reproduced:
                         o.violation_suffix = " native-replay=" + ("not-reproduced" if nr["result"].startswith("holds") else "unavailable")
+                elif o in new[unit.get("max_replays", 8):]:
+                    payload["counterexample"] = None
+                    payload["note"] = "counterexample extraction was limited to the first %d refuted obligations of this run; re-run with --only to extract this one" % unit.get("max_replays", 8)
+                    o.violation_suffix = " counterexample-not-extracted(limit)"
                 else:
                     payload["counterexample"] = None
                     payload["note"] = "verifier produced no concrete values for this harness"
